@@ -98,6 +98,40 @@ def elementwise(ctx, name, shape):
         ctx.same_term(tag + '/' + ('_'.join(map(str, idx)) or '0'), Y[idx] if shape else (Y[()] if isinstance(Y, np.ndarray) else Y), FL(single)[0])
 
 
+def float_points(ctx, name):
+    """float64 supplement on the property's own point set (NOT a solver verdict: exact real arithmetic cannot see overflow or
+    cancellation): the real closure, unpatched NumPy, on a dense grid over [-1e3, 1e3], +-10^k for k = -100..100 and the rationals
+    where numerators / denominators of the formulas vanish: finite, inside the TVD region, zero for r <= 0 (clipping family),
+    psi(1) == 1, and equal to the independently written closed form to 1e-12."""
+    import warnings
+    FL = pf.fluxLimiter(name)
+    pts = np.concatenate([np.linspace(-1e3, 1e3, 20001), [sg * 10.0 ** k for k in range(-100, 101) for sg in (1, -1)],
+                          [-4, -3, -2, -1, -0.5, -1 / 3, -0.25, 0, 0.25, 1 / 3, 0.5, 1, 1.5, 2, 3, 4, 5]])
+    with warnings.catch_warnings():
+        warnings.simplefilter('ignore')
+        y = np.asarray(FL(pts.copy()), dtype=float)
+    tag = 'C13/%s/float' % name
+    bad = pts[~np.isfinite(y)]
+    ctx.fact(tag + '/finite', bad.size == 0, 'non-finite at r = %s' % bad[:4])
+    pos = pts > 0
+    yy, rr = y[pos], pts[pos]
+    out = rr[(yy < -1e-12) | (yy > np.minimum(2 * rr, 4.0) * (1 + 1e-12))]
+    ctx.fact(tag + '/tvd_region', out.size == 0, 'outside 0 <= psi <= min(2r, 4) at r = %s' % out[:4])
+    if name in CLIP:
+        nz = pts[(pts <= 0) & (y != 0)]
+        ctx.fact(tag + '/clip_nonpos', nz.size == 0, 'non-zero for r <= 0 at r = %s' % nz[:4])
+    one = float(np.asarray(FL(np.array([1.0])))[0])
+    ctx.fact(tag + '/psi1', abs(one - 1.0) <= 1e-15, 'psi(1) = %r' % one)
+
+    class _F:       # float stand-in for the Ctx helpers the oracle uses
+        max = staticmethod(lambda *a: max(a)); min = staticmethod(lambda *a: min(a)); abs = staticmethod(abs)
+        where = staticmethod(lambda c, a, b: a if c else b); const = staticmethod(float)
+        sdiv = staticmethod(lambda a, b: a / b if b != 0 else 0.0)
+    ref = np.array([float(oracle(_F, name, float(r))) for r in pts])
+    dev = pts[np.abs(y - ref) > 1e-12 * np.maximum(1.0, np.abs(ref))]
+    ctx.fact(tag + '/closedform', dev.size == 0, 'differs from the closed form at r = %s' % dev[:4])
+
+
 def fallback(ctx):
     import io, contextlib
     with contextlib.redirect_stdout(io.StringIO()):
@@ -129,6 +163,8 @@ def scenarios(tier):
             T.append({'name': 'elementwise/%s/%s' % (n, 'x'.join(map(str, sh)) or 'scalar'), 'fn': 'pv.props.c13:elementwise',
                       'params': {'name': n, 'shape': list(sh)}, 'validate': 1})
     T.append({'name': 'fallback', 'fn': 'pv.props.c13:fallback', 'params': {}, 'validate': 2})
+    for n in NAMES:
+        T.append({'name': 'float_points/%s' % n, 'fn': 'pv.props.c13:float_points', 'params': {'name': n}, 'validate': 1, 'nostubs': True})
     lim_q = ['SUPERBEE', 'VanLeer', 'HCUS', 'CHARM', 'ospre', 'MinMod']
     for g in scen.ALL:
         nd = scen.ndim(g)
